@@ -14,6 +14,7 @@ def run(vc, tier):
     extra = [vc.REPO + '/contrib/seekable_format/zstdseek_compress.c']
     r1 = c.run_vx_unit('c20-reader-graph', src, 'plain', ['--corrupt', 0, '--D', 0, '--exec-timeout', 60000], extra_srcs=extra, share=0.6)
     r3 = c.run_vx_unit('c20-bigtable', src, 'asan', ['--corrupt', 2, '--D', 0, '--exec-timeout', 120000], extra_srcs=extra, share=0.5)
+    r4 = c.run_vx_unit('c20-bigframes', src, 'asan', ['--corrupt', 3, '--D', 0, '--exec-timeout', 120000], extra_srcs=extra, share=0.4)
     r2 = c.run_vx_unit('c20-corrupt', src, 'asan', ['--corrupt', 1, '--D', 0, '--exec-timeout', 60000], extra_srcs=extra, share=0.9)
     c.states = r1.stats.get('reader_states', 0); c.transitions = r1.stats.get('reads', 0); c.traces_validated = r1.stats.get('reads', 0)
     c.extra['archives_built'] = r1.stats.get('archives_built', 0); c.extra['archive_mutants'] = r2.stats.get('mutants', 0)
